@@ -173,6 +173,7 @@ class LocalFlow:
         self.deps = {}
         self.borrow_of = {}     # temp local -> local it mutably borrows
         self.src_calls = {}     # local -> set of callee qnames whose result flows directly into it
+        self.src_terms = {}     # local -> [call terminator] whose destination it is
         for b in fn.blocks:
             for s in b["s"]:
                 if s["k"] != "assign":
@@ -193,6 +194,7 @@ class LocalFlow:
             args = [a for a in args if a is not None]
             d = t["dest"]["l"]
             self.deps.setdefault(d, set()).update(args)
+            self.src_terms.setdefault(d, []).append(t)
             if "decl" in t["f"]:
                 decl, res, rk = fn.callee(t)
                 self.src_calls.setdefault(d, set()).add(decl.qname)
@@ -255,6 +257,13 @@ class LocalFlow:
         """some local in the dependency closure of l is the destination of a call satisfying qname_pred"""
         for x in self.closure(l):
             if any(qname_pred(q) for q in self.src_calls.get(x, ())):
+                return True
+        return False
+
+    def derives_from_call_where(self, l, pred):
+        """some local in the dependency closure of l is the destination of a call terminator satisfying pred(terminator)"""
+        for x in self.closure(l):
+            if any(pred(t) for t in self.src_terms.get(x, ())):
                 return True
         return False
 
